@@ -2,7 +2,7 @@
    The piece container `V` is represented by the string it holds (`V::from_slice` = identity on Layer S,
    by the refinements of its type) and by its `max_len()`.  *)
 From Coq Require Import NArith List Bool Arith.
-From DBG Require Import Spec.Dna Algo.Scan.
+From DBG Require Import Gen.SourceConsts Spec.Dna Spec.ScanSpec Algo.Scan.
 Import ListNotations.
 Open Scope nat_scope.
 
@@ -11,7 +11,7 @@ Open Scope nat_scope.
 Definition from_slice_bounds (src : dna) (start len : nat) : N :=
   let l_extend := if 0 <? start then (2 ^ nth (start - 1) src 0)%N else 0%N in
   let r_extend := if start + len <? length src then (2 ^ nth (start + len) src 0)%N else 0%N in
-  ((r_extend * 16) mod 256 + l_extend)%N.
+  ((r_extend * 2 ^ msp_exts_shift) mod 256 + l_extend)%N.
 
 (* permutation: None = the default (0..4^p) *)
 Definition msp_score (p : nat) (perm : option (list N)) (rcmode : bool) (x : dna) : N :=
@@ -25,7 +25,7 @@ Definition msp_score (p : nat) (perm : option (list N)) (rcmode : bool) (x : dna
 Definition msp_piece (seq : dna) (x : interval) : N * N * dna :=
   let start := N.to_nat (iv_start x) in
   let len := N.to_nat (iv_len x) in
-  ((bucket_of (iv_minimizer x) mod 2 ^ 32)%N, from_slice_bounds seq start len, sub start len seq).
+  ((bucket_of (iv_minimizer x) mod 2 ^ msp_bucket_bits)%N, from_slice_bounds seq start len, sub start len seq).
 
 Definition msp_sequence (max_len : N) (seq : dna) (k p : nat) (perm : option (list N)) (rcmode : bool)
   : option (list (N * N * dna)) :=
